@@ -591,6 +591,16 @@ fn integer_cells(ctx: &mut Ctx) {
             let nenc = refcodec::encode(&new);
             let got = call_buf(ctx, "array_insert(extreme)", |o| jsonb::array_insert(&enc, pos, &nenc, o), &info);
                 super::c06::judge(ctx, "array_insert(extreme)", got, &Edit::Ok(refops::array_insert(t, pos, &new)), false, &info);
+            // get_by_index takes a usize: the ends of that range and of the narrower integer types
+            if pos == 0 {
+                for ix in [usize::MAX, usize::MAX / 2, usize::MAX / 4 + 1, usize::MAX / 4, i64::MAX as usize, u32::MAX as usize, u32::MAX as usize + 1, i32::MAX as usize, 1usize << 29] {
+                    match guard(|| jsonb::get_by_index(&enc, ix)) {
+                        Err(p) => ctx.panic_violation("get_by_index(extreme)", &p, &|| format!("index={} ; {}", ix, info())),
+                        Ok(Some(b)) => ctx.violation("get_by_index(extreme)/some", || format!("index={} returned {} ; {}", ix, hex(&b), info())),
+                        Ok(None) => {}
+                    }
+                }
+            }
             // key paths with extreme indices
             for kp in [vec![KP::Index(pos)], vec![KP::Name("a".into()), KP::Index(pos)], vec![KP::Index(2), KP::Index(pos)]] {
                 let lp = lib_keypath(&kp);
@@ -693,6 +703,53 @@ fn integer_cells(ctx: &mut Ctx) {
             for m in 0..4 {
                 if let super::paths::Sel::Panic(p) = super::paths::select(text.as_bytes(), &doc, m) {
                     ctx.panic_violation("select(index list order)", &p, &|| format!("path={}", text));
+                }
+            }
+        }
+    }
+    // every step kind applied to every kind of value (wildcards on objects below the root, index
+    // steps on objects, name steps on arrays, filters on scalars ...): a result or an error
+    {
+        let docs: Vec<Tree> = vec![
+            Tree::obj_from(vec![("a".into(), Tree::obj_from(vec![("b".into(), Tree::Num(Num::U(1)))])), ("c".into(), Tree::Num(Num::U(2)))]),
+            Tree::obj_from(vec![("a".into(), Tree::Arr(vec![Tree::obj_from(vec![("b".into(), Tree::Num(Num::U(1)))]), Tree::Arr(vec![])])), ("c".into(), Tree::Arr(vec![]))]),
+            Tree::Arr(vec![Tree::Arr(vec![Tree::Num(Num::U(1)), Tree::obj_from(vec![("x".into(), Tree::Num(Num::U(2)))])]), Tree::obj_from(vec![("y".into(), Tree::Arr(vec![Tree::Num(Num::U(3))]))]), Tree::Str("s".into())]),
+            Tree::obj_from(vec![("a".into(), Tree::Obj(vec![])), ("b".into(), Tree::Arr(vec![Tree::Obj(vec![])]))]),
+            Tree::Str("abcd".into()),
+            Tree::Obj(vec![]),
+        ];
+        let paths = [
+            "$", "$.a", "$.*", "$[*]", "$.a[*]", "$.*[*]", "$[*][*]", "$.a.*", "$.a[*].b", "$.a[*][*]", "$.c[*]", "$.b[*][*]", "$.*[0]", "$[last][*]", "$[0 to last]", "$.a[0 to last]", "$.a[last]",
+            "$.a ? (@.b == 1)", "$[*] ? (exists(@.x))", "$.* ? (@ == 2)", "$ ? (@.a.b == 1)", "$.a[*] ? (@.b > 0).b", "$[*].y[*]", "$.a.b.c", "$[0][1].x", "$.a == 1", "$.a.b == 1 || $.c == 2", "exists($.a[*])",
+        ];
+        for t in &docs {
+            let enc = refcodec::encode(t);
+            let text = crate::refjson::compact(t);
+            for p in paths {
+                ctx.next_case();
+                ctx.count("step-kind-cells");
+                let info = || format!("path={} doc={}", p, t.show());
+                for m in 0..4 {
+                    if let super::paths::Sel::Panic(pn) = super::paths::select(p.as_bytes(), &enc, m) {
+                        ctx.panic_violation("select(step kinds)", &pn, &info);
+                    }
+                }
+                if let Err(pn) = super::paths::exists(p.as_bytes(), &enc) {
+                    ctx.panic_violation("exists(step kinds)", &pn, &info);
+                }
+                if let Err(pn) = super::paths::predicate_match(p.as_bytes(), &enc) {
+                    ctx.panic_violation("predicate_match(step kinds)", &pn, &info);
+                }
+                let r = guard(|| {
+                    if let Ok(jp) = jsonb::jsonpath::parse_json_path(p.as_bytes()) {
+                        let (mut d, mut o) = (Vec::new(), Vec::new());
+                        let _ = jsonb::get_by_path(&text, jp.clone(), &mut d, &mut o);
+                        let _ = jsonb::get_by_path_array(&enc, jp.clone(), &mut d, &mut o);
+                        let _ = jsonb::path_exists(&text, jp);
+                    }
+                });
+                if let Err(pn) = r {
+                    ctx.panic_violation("get_by_path(step kinds)", &pn, &info);
                 }
             }
         }
